@@ -120,6 +120,7 @@ def run(M, rec, tier, seed, k, n):
     finally:
         W.USER_KINDS["prob"] = 0.0
         mon.uninstall()
+    W.ensembles_vs_single_scenarios(M, rec, rng, PROP, 24 if tier == "quick" else 240)
     if k == 0:
         W.repo_tests(rec, [PROP])
 
